@@ -366,4 +366,50 @@ def rule_local_dirs(ctx):
         raise Inconclusive("C09.LOCAL: the file / directory branches of Client.download were not recognised")
 
 
-RULES = [rule_dest, rule_rec, rule_list, rule_rm, rule_mkdir, rule_copy_client, rule_next_dir, rule_borrowed_r4, rule_local_dirs]
+def rule_probes(ctx):
+    p = ctx.p
+    ctx.rule("C09.PROBE", "the probes the tree operations are built on answer what they found: stat() returns the parsed facts, exists() turns only a 550 into False "
+                          "(any other failure surfaces), make_directory() creates missing parents by default")
+    st = p.method("Client", "stat")
+    parsed = [n for n in walk_no_nested(st) if isinstance(n, ast.Assign) and isinstance(n.value, ast.Call) and is_self_call(n.value, {"parse_mlsx_line"}) and isinstance(n.targets[0], ast.Tuple)]
+    ok = False
+    for n in parsed:
+        info_name = n.targets[0].elts[1].id if isinstance(n.targets[0].elts[1], ast.Name) else None
+        blk = p.parent.get(n)
+        body = next((getattr(blk, fld) for fld in ("body", "orelse") if n in getattr(blk, fld, [])), [])
+        ok = ok or any(isinstance(x, ast.Return) and isinstance(x.value, ast.Name) and x.value.id == info_name for x in body[body.index(n) + 1:])
+    ctx.ob("C09.PROBE", st, "stat() returns the facts parsed from the MLST reply", ok, "stat() parses the MLST reply but does not return the facts: is_file/is_dir/exists work on None",
+           construct="probe:stat return")
+    ex = p.method("Client", "exists")
+    hs = [h for h in walk_no_nested(ex) if isinstance(h, ast.ExceptHandler)]
+    ok = bool(hs)
+    for h in hs:
+        paths = Cfg(lambda n: [], p.issub).seq(h.body)
+        for ev, out in paths:
+            is550 = False
+            for e in ev:
+                if e[0] == "branch":
+                    t_, pol_ = e[1], e[2]
+                    while isinstance(t_, ast.UnaryOp) and isinstance(t_.op, ast.Not):
+                        t_, pol_ = t_.operand, not pol_
+                    if pol_ and "550" in src(t_):
+                        is550 = True
+            if out[0] == "return" and not is550:
+                ok = False
+            if out[0] == "fall":
+                ok = False
+    ctx.ob("C09.PROBE", ex, "exists(): only a 550 means 'does not exist', every other failure is re-raised", ok,
+           "exists() swallows failures other than 550 (it returns instead of re-raising): a server error looks like 'missing' and the tree operation goes on", construct="probe:exists swallows")
+    md = p.method("Client", "make_directory")
+    kd = {a.arg: d for a, d in zip(md.args.kwonlyargs, md.args.kw_defaults)}
+    kd.update({a.arg: d for a, d in zip(md.args.args[len(md.args.args) - len(md.args.defaults):], md.args.defaults)})
+    ok = isinstance(kd.get("parents"), ast.Constant) and kd["parents"].value is True
+    ctx.ob("C09.PROBE", md, "make_directory(parents=True) by default", ok, "make_directory no longer creates missing parents by default: upload into a fresh destination fails", construct="probe:mkdir default")
+    brs = [b for b in walk_no_nested(md) if isinstance(b, ast.Break)]
+    for b in brs:
+        gs = [(t, pol) for t, pol in all_guards(p, b, md) if isinstance(t, ast.Name) and t.id == "parents"]
+        ctx.ob("C09.PROBE", b, "the walk up to the first existing ancestor stops early only when parents is false", bool(gs) and all(not pol for t, pol in gs),
+               "make_directory stops collecting missing ancestors although parents is true (or goes on when it is false)", construct="probe:mkdir parents test")
+
+
+RULES = [rule_dest, rule_rec, rule_list, rule_rm, rule_mkdir, rule_copy_client, rule_next_dir, rule_borrowed_r4, rule_local_dirs, rule_probes]
